@@ -161,10 +161,61 @@ def rule_acc(ctx, rep):
 DECL_V = re.compile(r"ironplc_dsl::common::(\w*Declaration\w*|LibraryElementKind|DataTypeDeclarationKind)")
 
 
-def rule_insert(ctx, rep):
-    r = rep.rule("R-C03-insert", "a name-keyed HashMap insert of a declaration in the analyzer must not silently overwrite: the returned "
-                                 "Option is inspected, or the insert is dominated by a failed lookup of the same key", floor=12, floor_what="declaration inserts")
+def decl_instantiations(ctx, b):
+    """for a generic helper: the declaration value types its callers (in the analyzer) instantiate it with"""
+    out = set()
+    n = norm(b.id)
+    for cb in ctx.prog.bodies.values():
+        if cb.f["crate"] != "ironplc_analyzer":
+            continue
+        for c in cb.calls():
+            if c.callee == n and c.ga:
+                for t in split_top(c.ga.strip("[]")):
+                    m = DECL_V.search(t)
+                    if m:
+                        # the concrete declaration handed in: variant of the aggregate argument if visible
+                        what = t.strip().split("::")[-1]
+                        for a in c.args:
+                            p = op_place(a)
+                            d = cb.single_def(p[0]) if p and not p[1] else None
+                            if d and d[0] == "stmt" and d[3][0] == "agg" and d[3][1].get("k") == "adt" and DECL_V.search(d[3][1]["adt"]):
+                                what = "%s::%s" % (d[3][1]["adt"].split("::")[-1], d[3][1]["variant"])
+                        out.add(what)
+    return out
+
+
+def failed_lookup_guard(b, c):
+    """the insert is dominated by the `absent` outcome of a lookup of the same map and key:
+    contains_key(..) == false, or get/get_key_value(..) matched None"""
     from rules import panics
+    from vlib.mir import switch_info
+    mp = b.root(op_place(c.args[0])) if op_place(c.args[0]) else None
+    for g in panics._cmp_guards(b, c.bb):
+        if g[0] == "call" and (g[1].callee or "").endswith(("HashMap::contains_key", "BTreeMap::contains_key")) and not g[4]:
+            return True
+    for d in b.dominators().get(c.bb, set()):
+        si = switch_info(b, d)
+        if not si or si["kind"] != "disc" or si["subject"][0] != "call":
+            continue
+        lc = si["subject"][1]
+        if not (lc.callee or "").endswith(("Map::get", "Map::get_key_value", "Map::get_mut")):
+            continue
+        if mp is not None and op_place(lc.args[0]) is not None and b.root(op_place(lc.args[0]))[0] != mp[0]:
+            continue
+        for succ, labs in si["edges"].items():
+            if labs == ["None"] and (succ == c.bb or succ in b.dominators().get(c.bb, set())):
+                return True
+        # `if let Some(..) = lookup { return Err }` : the insert is only reachable through the None edge
+        some_t = [s for s, l in si["edges"].items() if l == ["Some"]]
+        none_t = [s for s, l in si["edges"].items() if l == ["None"]]
+        if some_t and none_t and c.bb not in b.reachable(some_t[0]) and c.bb in b.reachable(none_t[0]):
+            return True
+    return False
+
+
+def rule_insert(ctx, rep):
+    r = rep.rule("R-C03-insert", "a name-keyed map insert of a declaration in the analyzer must not silently overwrite: the returned "
+                                 "Option is inspected, or the insert is dominated by a failed lookup of the same key", floor=12, floor_what="declaration inserts")
     counts = {}
     for b in sorted(ctx.prog.bodies.values(), key=lambda x: x.id):
         if b.f["crate"] != "ironplc_analyzer":
@@ -178,31 +229,33 @@ def rule_insert(ctx, rep):
             k, v = ga[0].strip(), ga[1].strip()
             if k.lstrip("&'{erased} ") not in ("ironplc_dsl::core::Id", "ironplc_dsl::common::Type"):
                 continue
-            if not DECL_V.search(v):
-                continue
             fn = norm(b.id)
-            # what is inserted: variant of the value aggregate if visible
-            what = v.split("::")[-1]
-            vp = op_place(c.args[2])
-            vd = b.single_def(vp[0]) if vp and not vp[1] else None
-            if vd and vd[0] == "stmt" and vd[3][0] == "agg" and vd[3][1].get("k") == "adt":
-                what += "::" + vd[3][1]["variant"]
-            n = counts[(fn, what)] = counts.get((fn, what), 0) + 1
-            inst = "%s|insert %s#%d" % (fn, what, n)
+            whats = []
+            if DECL_V.search(v):
+                what = v.split("::")[-1]
+                vp = op_place(c.args[2])
+                vd = b.single_def(vp[0]) if vp and not vp[1] else None
+                if vd and vd[0] == "stmt" and vd[3][0] == "agg" and vd[3][1].get("k") == "adt":
+                    what += "::" + vd[3][1]["variant"]
+                whats = [what]
+            elif re.fullmatch(r"[A-Z]\w*/#\d+", v):
+                whats = sorted(decl_instantiations(ctx, b))
+            if not whats:
+                continue
             dl = c.dest[0]
             used = [kk for _, kk, p in b.place_uses() if p[0] == dl and kk not in ("write", "drop")]
-            guarded = False
-            for g in panics._cmp_guards(b, c.bb):
-                if g[0] == "call" and (g[1].callee or "").endswith(("HashMap::contains_key", "BTreeMap::contains_key")) and not g[4]:
-                    guarded = True
-            if used or guarded:
-                r.ok(inst, loc_str(b.f, c.loc))
-            elif fn.startswith("ironplc_analyzer::rule_") and downstream_of_duplicate_detection(ctx, what):
-                r.justified(inst, "lookup table of a semantic rule: rules only run after resolve_types succeeded (R-C02-registry), and "
-                                  "SymbolTable::add_if_new rejects a second %s of the same name there (verified: the type-table visitor "
-                                  "calls add_if_new for this kind)" % what, loc_str(b.f, c.loc))
-            else:
-                r.finding(inst, loc_str(b.f, c.loc), "result of insert ignored: a second declaration with the same name silently replaces the first")
+            guarded = failed_lookup_guard(b, c)
+            for what in whats:
+                n = counts[(fn, what)] = counts.get((fn, what), 0) + 1
+                inst = "%s|insert %s#%d" % (fn, what, n)
+                if used or guarded:
+                    r.ok(inst, loc_str(b.f, c.loc), "guarded by a failed lookup" if guarded else "result inspected")
+                elif fn.startswith("ironplc_analyzer::rule_") and downstream_of_duplicate_detection(ctx, what):
+                    r.justified(inst, "lookup table of a semantic rule: rules only run after resolve_types succeeded (R-C02-registry), and "
+                                      "SymbolTable::add_if_new rejects a second %s of the same name there (verified: the type-table visitor "
+                                      "calls add_if_new for this kind)" % what, loc_str(b.f, c.loc))
+                else:
+                    r.finding(inst, loc_str(b.f, c.loc), "result of insert ignored: a second declaration with the same name silently replaces the first")
 
 
 def downstream_of_duplicate_detection(ctx, what):
@@ -228,7 +281,7 @@ def rule_drain(ctx, rep):
     # kinds inserted by name
     kinds = []
     for c in b.calls():
-        if c.callee and c.callee.endswith(("HashMap::insert", "BTreeMap::insert")):
+        if c.callee and (c.callee.endswith(("HashMap::insert", "BTreeMap::insert")) or c.callee.endswith("xform_toposort_declarations::insert_unique")):
             vp = op_place(c.args[2])
             vd = b.single_def(vp[0]) if vp and not vp[1] else None
             if vd and vd[0] == "stmt" and vd[3][0] == "agg":
